@@ -20,6 +20,7 @@ type PropConfig struct {
 	NotDecided    []string `json:"not_decided"`
 	Assumptions   []string `json:"assumptions"`
 	Bounded       []string `json:"bounded"`
+	Writers       []WriterSpec `json:"writers"`
 }
 
 type KnownFinding struct {
@@ -156,6 +157,7 @@ func cmdCheck(args []string) int {
 	genSecs := time.Since(tg).Seconds()
 
 	var obls []*Obligation
+	var scanned []*Obligation
 	generated := map[string]*Obligation{}
 	unitErr := map[string]string{}
 	for _, u := range units {
@@ -165,15 +167,37 @@ func cmdCheck(args []string) int {
 		}
 		for _, o := range u.obls {
 			if _, dup := generated[o.Name]; dup {
-				o.Name += "'"
+				for k := 2; ; k++ {
+					if _, dup2 := generated[fmt.Sprintf("%s'%d", o.Name, k)]; !dup2 {
+						o.Name = fmt.Sprintf("%s'%d", o.Name, k)
+						break
+					}
+				}
 			}
 			generated[o.Name] = o
 			obls = append(obls, o)
 		}
 	}
+	// writer-set facts (decided by a complete scan of the loaded SSA, not by the solvers)
+	for _, ws := range cfg.Writers {
+		off, sites := eng.checkWriters(ws)
+		o := &Obligation{Name: writerObligationName(ws), Kind: "writers", Clause: fmt.Sprintf("only %v write %s (%d writing sites found)", ws.Allowed, ws.Target, sites), Solver: "ssa-scan", unit: nil}
+		if len(off) == 0 {
+			o.Result = "unsat"
+		} else {
+			o.Result = "sat"
+			o.Output = "unexpected writers: " + strings.Join(off, ", ")
+		}
+		scanned = append(scanned, o)
+		generated[o.Name] = o
+		obls = append(obls, o)
+	}
 	// which to solve
 	var todo []*Obligation
 	for _, o := range obls {
+		if o.Kind == "writers" {
+			continue
+		}
 		if *only != "" && !strings.Contains(o.Name, *only) {
 			continue
 		}
@@ -283,6 +307,15 @@ func cmdCheck(args []string) int {
 			failures = append(failures, failure{n, reason, nil})
 			continue
 		}
+		if o.Kind == "writers" {
+			if o.Result == "unsat" {
+				discharged++
+				bySolver["ssa-scan"]++
+			} else {
+				failures = append(failures, failure{n, o.Output, nil})
+			}
+			continue
+		}
 		uname := o.unit.name
 		if e, bad := unitErr[uname]; bad {
 			failures = append(failures, failure{n, "unit has generation errors: " + e, o})
@@ -308,6 +341,11 @@ func cmdCheck(args []string) int {
 	}
 	if *update {
 		var names []string
+		for _, o := range scanned {
+			if o.Result == "unsat" {
+				names = append(names, o.Name)
+			}
+		}
 		for _, o := range todo {
 			if o.Canary {
 				continue
